@@ -34,11 +34,24 @@ ASSUMPTIONS = ['/proc/net/tcp{,6} and /proc/self/fd are the ground truth for lis
                'waiting for an answer uses a 15 s deadline (>100x the normal latency); hitting it is inconclusive']
 
 
-def free_port(host: str) -> int:
-    s = socket.socket(socket.AF_INET6 if ':' in host else socket.AF_INET, socket.SOCK_STREAM)
-    s.bind((host, 0))
-    p = s.getsockname()[1]
-    s.close()
+def free_port(host: str, also: Tuple[str, ...] = ()) -> int:
+    """A port that is free on `host` and on every address in `also` (the proxy binds each port on every listening address)."""
+    for _ in range(50):
+        s = socket.socket(socket.AF_INET6 if ':' in host else socket.AF_INET, socket.SOCK_STREAM)
+        s.bind((host, 0))
+        p = s.getsockname()[1]
+        s.close()
+        ok = True
+        for h in also:
+            t = socket.socket(socket.AF_INET6 if ':' in h else socket.AF_INET, socket.SOCK_STREAM)
+            try:
+                t.bind((h, p))
+            except OSError:
+                ok = False
+            finally:
+                t.close()
+        if ok:
+            return p
     return p
 
 
@@ -161,16 +174,16 @@ def _evaluate_once(c: Dict[str, Any]) -> Tuple[List[Any], Dict[str, Any]]:
     from proxy import Proxy
     tmp = tempfile.mkdtemp(prefix='vf-c19-')
     hosts = [c['hostname']] + [h for h in c['hostnames'] if h != c['hostname']]
-    fixed_primary = None if c['port'] == 0 else free_port(hosts[0])
+    fixed_primary = None if c['port'] == 0 else free_port(hosts[0], tuple(hosts[1:]))
     extras: List[Optional[int]] = []
     taken = {fixed_primary}
     for e in c['ports']:
         if e == 0:
             extras.append(None)
         else:
-            p = free_port(hosts[0])
+            p = free_port(hosts[0], tuple(hosts[1:]))
             while p in taken:
-                p = free_port(hosts[0])
+                p = free_port(hosts[0], tuple(hosts[1:]))
             taken.add(p)
             extras.append(p)
     argv = ['--hostname', c['hostname'], '--port', str(fixed_primary or 0), '--num-acceptors', str(c['acceptors']),
